@@ -85,4 +85,9 @@ def sOutResult (target : Resp) (kwargs : List Arg) : OutResult :=
   else if target == .only then .refused
   else .delivered false
 
+/-- the declaration spec speaks about Home Assistant services: a name means its lower-cased form -/
+def lowOp : Op → Op
+  | .define ctx fn var gen decl => .define ctx fn var gen (decl.map (fun d => (lower d.1, d.2)))
+  | op => op
+
 end PsModel.C12
